@@ -148,7 +148,20 @@ def f1(facts, tier):
             if isinstance(sym, tuple) and sym[0] == "A" and sym[2]:
                 written = tuple(sym[2])
     found = None
-    for x in walk(f["body"]):
+    # load_impl and the private helpers it is split into (`read_container_header(..)`)
+    scope, frontier = [f], [f]
+    for _ in range(2):
+        nxt = []
+        for g in frontier:
+            for y in walk(g["body"]):
+                if y.get("k") == "Call":
+                    h = facts.fns.get((y.get("res") or {}).get("fn") or y.get("fn"))
+                    if h is not None and h["crate"] == "savefile" and h.get("body") and not (h.get("impl") or {}).get("trait") \
+                            and not h.get("pub") and h not in scope:
+                        scope.append(h)
+                        nxt.append(h)
+        frontier = nxt
+    for x in (y for g in scope for y in walk(g["body"])):
         if x.get("k") == "If":
             arrs = set()
             for y in walk(x["c"]):
@@ -1468,7 +1481,8 @@ def q7(facts, tier):
 def k8(facts, tier):
     from ..flow import parent_map
     from .taint_rules import pat_binds
-    fns = [g for g in facts.fns.values() if g["crate"] == "savefile" and "CryptoWriter" in g["id"] and g.get("body")]
+    fns = [g for g in facts.fns.values() if g["crate"] == "savefile" and g.get("body") and
+           ("CryptoWriter" in g["id"] or (g["id"].startswith("savefile::crypto::") and "CryptoReader" not in g["id"] and "load_" not in g["id"]))]
     is_hdr = lambda x: x.get("k") == "Call" and (callee(x) or "").endswith(("WriteBytesExt::write_u64", "WriteBytesExt>::write_u64"))
 
     def remaining_guard(c, about=None):
@@ -1508,12 +1522,24 @@ def k8(facts, tier):
             p = pm.get(id(p))
         return guards, loop
 
+    def from_len(f, e, depth=0):
+        """a record header is the u64 that announces a length: its value derives from some `.len()`"""
+        for y in walk(e):
+            if y.get("k") == "Call" and (callee(y) or "").endswith("::len"):
+                return True
+            if y.get("k") == "Var" and depth < 3:
+                for s_ in walk(f["body"]):
+                    if s_.get("k") == "LetS" and s_.get("init") is not None and any(b["v"] == y["v"] for b in pat_binds(s_["pat"])) \
+                            and from_len(f, s_["init"], depth + 1):
+                        return True
+        return False
+
     total = 0
     for f in sorted(fns, key=lambda g: g["id"]):
         pm = None
         n = 0
         for x in walk(f["body"]):
-            if not is_hdr(x):
+            if not is_hdr(x) or len(x.get("args", [])) < 2 or not from_len(f, x["args"][1]):
                 continue
             pm = pm or parent_map(f["body"])
             n += 1
@@ -1544,7 +1570,27 @@ def k8(facts, tier):
                         if s_.get("k") == "LetS" and s_.get("init") is not None and {b["v"] for b in pat_binds(s_["pat"])} & argvars:
                             argvars |= {z["v"] for z in walk(s_["init"]) if z.get("k") == "Var"}
                     gs, _ = guards_above(gpm, y, False)
-                    if not any(remaining_guard(c, argvars) for c in gs):
+                    if any(remaining_guard(c, argvars) for c in gs):
+                        continue
+                    # `for piece in buf.chunks(N) { tmp.clone_from_slice(piece); seal(&mut tmp) }`: chunks() yields non-empty pieces, and
+                    # the buffer handed over was filled from the piece inside the loop
+                    in_chunks = False
+                    p_, ch_ = gpm.get(id(y)), y
+                    while p_ is not None:
+                        if p_.get("k") == "For" and any(z.get("k") == "Call" and (callee(z) or "").rsplit("::", 1)[-1] in ("chunks", "chunks_exact", "chunks_mut")
+                                                        for z in walk(p_["iter"])):
+                            lv = {b["v"] for b in pat_binds(p_["pat"])}
+                            if argvars & lv:
+                                in_chunks = True
+                            for z in walk(p_["body"]):
+                                if z.get("k") == "Call" and z is not y and (callee(z) or "").rsplit("::", 1)[-1] in \
+                                        ("clone_from_slice", "copy_from_slice", "extend_from_slice", "extend", "resize"):
+                                    zv = {w_["v"] for a_ in z["args"] for w_ in walk(a_) if w_.get("k") == "Var"}
+                                    if zv & lv and zv & argvars:
+                                        in_chunks = True
+                            break
+                        ch_, p_ = p_, gpm.get(id(p_))
+                    if not in_chunks:
                         badsite = (g, y)
                         break
                 if badsite:
@@ -2148,3 +2194,42 @@ def x5(facts, tier):
         yield ob(P, "X5", f"selftest:{name}", "pass" if ok else "violation", o["where"] if o else "",
                  f"positive example {name} is classified `{want}`" if ok else
                  f"rule X5 no longer classifies its built-in example sfcorpus::selftest_state::{name} as `{want}` (got {o['status'] if o else 'nothing'}): the rule is blind")
+
+
+# ---------------------------------------------------------------------------------------------
+# W19: independent boolean facts are written independently
+
+@rule("W19", ["C13", "C15"], floor=1, doc="a writer of the schema / interface-definition types that encodes two boolean fields of the value (the Send and "
+      "Sync bounds of an interface definition) tests each of them on its own: the test of one flag is not nested in the else-branch of "
+      "the other (an `if a {..} else if b {..}` chain can express only one of them, so a definition with both bounds reads back with one)")
+def w19(facts, tier):
+    from .wire_rules import impl_pairs
+    sers, _ = impl_pairs(facts)
+    n = 0
+    for (ty, fid), (f, _) in sorted(sers.items()):
+        if not ty.startswith("savefile::") or "~" in fid:
+            continue
+        selfv = next((p["pat"]["v"] for p in f.get("params", []) if p.get("self") and (p.get("pat") or {}).get("k") == "Bind"), None)
+
+        def flag_of(c):
+            c = peel_block(peel(c))
+            if c.get("k") == "Field" and (c.get("ty") == "bool") and any(y.get("k") == "Var" and y.get("v") == selfv for y in walk(c)):
+                return c["f"]
+            return None
+        flags = [(x, flag_of(x["c"])) for x in walk(f["body"]) if x.get("k") == "If" and flag_of(x["c"])]
+        if len({fl for _, fl in flags}) < 2:
+            continue
+        n += 1
+        bad = None
+        for x, fl in flags:
+            if x.get("f") is None:
+                continue
+            for y in walk(x["f"]):
+                if y.get("k") == "If" and flag_of(y["c"]) and flag_of(y["c"]) != fl:
+                    bad = (fl, flag_of(y["c"]), y)
+        yield ob(["C13", "C15"], "W19", f["id"], "violation" if bad else "pass", where(f, bad[2]) if bad else where(f),
+                 f"{f['id']}: the flag `{bad[1]}` is only tested when `{bad[0]}` is false (else-if chain): a value with both set is written as if "
+                 f"only `{bad[0]}` were, and reads back different from what was written" if bad else
+                 f"each of the flags {sorted({fl for _, fl in flags})} is tested on its own")
+    if n == 0:
+        yield ob(["C13", "C15"], "W19", "anchor", "violation", "", "no writer testing two boolean fields found (anchor lost)")
